@@ -26,7 +26,7 @@ static const cfg_t cfgs[] = {
     { "FIFO_WAIT/MPMC: push_threads(65) || 2 single pushes || 1 pop", 1,
       ABT_POOL_FIFO_WAIT, 65, 1 },
     { "RANDWS/MPMC: push_threads(70) || 2 single pushes", 0, ABT_POOL_RANDWS, 70, 0 },
-    { "FIFO/MPMC: push_threads(130) || 2 single pushes || 1 pop", 0, ABT_POOL_FIFO, 130,
+    { "FIFO/MPMC: push_threads(130) || 2 single pushes || 1 pop", 1, ABT_POOL_FIFO, 130,
       1 },
 };
 
